@@ -3,8 +3,11 @@
 All value rules are decided by IVAL (osmlint/c13_util.py): interval abstract interpretation of the function body with
 trace partitioning on loop counters / flags, exact integer arithmetic checked against the LP64 range of every node's
 type, branch refinement, liveness.  Nothing is executed; a rule holds only if it holds in *every* abstract state, which
-covers every input string / value.  Scope = every function body defined in osm/location.hpp, osm/timestamp.hpp,
-osm/types_from_string.hpp, io/detail/opl_parser_functions.hpp, io/detail/output_format.hpp, util/misc.hpp.
+covers every input string / value.  Guards may be spelled any way, sit in an `&&` chain, or live in an extracted helper
+(predicate `is_digit(c)` or throwing `check_range(x)`): the interpreter follows them.  Scope = every function body defined in
+osm/location.hpp, osm/timestamp.hpp, osm/types_from_string.hpp, io/detail/opl_parser_functions.hpp, util/misc.hpp and class
+OutputBlock of io/detail/output_format.hpp (output_int), as instantiated by drivers/c13_extra.cpp (and, thorough tier, by
+the reader / writer drivers).
 
  A1-accum-bounded          (DESIGN clause 1) every update of an integer accumulator inside a loop in which it is scaled
                            (`x = x*k + d`, `x *= k`, `x <<= k`, and the `x += d` / `x -= d` that go with it) stays inside
@@ -47,7 +50,7 @@ from ..errdisc import SPECIAL, is_extern_c, guards
 
 KNOWN = [
     ('A1-accum-bounded',
-     'osmium::detail::string_to_location_coordinate#(result *= 10)@ForStmt[(scale > 0)]',
+     'osmium::detail::string_to_location_coordinate#(result*=10)@ForStmt[(scale>0)]',
      'F6: after the exponent has been added, `scale` is only bounded by 8 + 99999, so `for (; scale > 0; --scale) result *= 10` '
      'multiplies without bound (first abstract event: result in [0, 10^18) times 10); signed overflow wraps on the usual targets and '
      'the range test afterwards sees a small number: "1e63" is accepted as 0 (and e.g. "9999999999.99999999e1" overflows) instead of '
@@ -59,7 +62,7 @@ KNOWN = [
      'and the OPL/XML/debug writers emit "-(" for an object id / ref of -9223372036854775808, which opl_parse_int accepts on input; '
      'format -> parse does not return the identical value.'),
     ('C1-narrowing-in-range',
-     'osmium::Timestamp::(ctor)#long->unsigned int:osmium::detail::parse_timestamp(timestamp)',
+     'osmium::Timestamp::(ctor)#long->unsignedint:osmium::detail::parse_timestamp(timestamp)',
      'Timestamp(const char*) casts the time_t of parse_timestamp to uint32_t without a range test: parse_timestamp accepts every '
      'year 1900..9999, so "2106-02-07T06:28:16Z" (2^32 s) becomes 0 (an invalid Timestamp), "1969-12-31T23:59:59Z" becomes '
      '4294967295 (2106-02-07T06:28:15Z); out-of-range timestamp strings yield a wrong value instead of std::invalid_argument.'),
@@ -74,7 +77,8 @@ EXPLANATION = (
     'parsed value is proven in range; only range-tested characters are converted to digit values; the month table index is in '
     'range.  NOT decided: format/parse round trip equality for all values, rounding correctness, formatter digit logic and buffer '
     'sizes, calendar arithmetic of timegm/gmtime_r, the pbf_compression_level option parser.')
-ASSUMPTIONS = ['LP64 data model, char is signed 8 bit (x86-64 / aarch64-linux differs only in char signedness, which no rule depends on: '
+ASSUMPTIONS = ['a character read through an input pointer does not alias a local variable, a field of a local record or the pointer itself',
+               'LP64 data model, char is signed 8 bit (x86-64 / aarch64-linux differs only in char signedness, which no rule depends on: '
                'both signs of a non-NUL char are walked)',
                'strtoll / strtol / strtoul behave per ISO C (saturate and set ERANGE, leave end at the first unconverted character, '
                'end == input when no conversion is performed)',
@@ -111,15 +115,24 @@ class Cache:
             self.d[id(fn)] = it
         return it
 
-    def get(self, fn):
+    def get(self, fn, R=None):
+        """the finished interpretation, or None (reported as analysis-broken) when the fixpoint was cut off: a truncated
+        run has not covered every state and proves nothing"""
         it = self.shell(fn)
         if id(fn) not in self.ran:
             self.ran.add(id(fn))
             it.run()
-        return it
+            if it.res.truncated and R is not None:
+                R.broken('IVAL: interpretation of %s (%s) exceeded the step limit' % (fn.q, fn.site))
+        return None if it.res.truncated else it
 
 
 # ------------------------------------------------------------------------------------------------ helpers
+
+def _k(s):
+    """instance keys carry canonical expression text; known_findings.txt is whitespace-tokenised, so keys have no blanks"""
+    return s.replace(' ', '')
+
 
 def _rv(fn, nid):
     """strip parens and lvalue-to-rvalue / no-op conversions (value-identical wrappers)."""
@@ -239,15 +252,14 @@ def rule_accum(R, fns, cache):
         accs = {(d, L['b']) for (_a, d, L, mult, _s) in ups if mult}
         if not accs:
             continue
-        it = cache.get(fn)
+        it = cache.get(fn, R)
+        if it is None:
+            continue
         for (a, d, L, mult, spine) in ups:
             if (d, L['b']) not in accs:
                 continue
             res = it.res
-            key = '%s#%s@%s' % (fn.q, fn.expr(a['id']), _loop_label(fn, L))
-            if res.truncated:
-                R.broken('A1: interpretation of %s truncated' % fn.q)
-                continue
+            key = _k('%s#%s@%s' % (fn.q, fn.expr(a['id']), _loop_label(fn, L)))
             if a['id'] not in res.reached:
                 continue
             ev = [(x, res.events[x]) for x in spine if x in res.events]
@@ -269,12 +281,14 @@ def rule_neg(R, fns, cache):
                  and fn.const_value(n['sub']) is None]
         if not cands:
             continue
-        it = cache.get(fn)
+        it = cache.get(fn, R)
+        if it is None:
+            continue
         res = it.res
         for n in cands:
             if n['id'] not in res.reached:
                 continue
-            key = '%s#-%s' % (fn.q, fn.expr(n['sub']))
+            key = _k('%s#-%s' % (fn.q, fn.expr(n['sub'])))
             opnd = res.obs.get(n['sub'])
             r = U.type_range(n.get('t'))
             if n['id'] in res.events or opnd is None:
@@ -339,7 +353,9 @@ def rule_narrow(R, fns, cache, parsers):
                 cands.append((n, src, rt))
         if not cands:
             continue
-        it = cache.get(fn)
+        it = cache.get(fn, R)
+        if it is None:
+            continue
         res = it.res
         pl = None
         for (n, src, rt) in cands:
@@ -357,7 +373,7 @@ def rule_narrow(R, fns, cache, parsers):
             if not parsed or n['id'] not in res.reached:
                 continue
             src_s = src.replace('const ', '')
-            key = '%s#%s->%s:%s' % (fn.q, src_s, n.get('t').replace('const ', ''), fn.expr(o))
+            key = _k('%s#%s->%s:%s' % (fn.q, src_s, n.get('t').replace('const ', ''), fn.expr(o)))
             opnd = res.obs.get(n['sub'])
             ok = opnd is not None and U.inside(opnd, rt)
             R.check(ok, 'C1-narrowing-in-range', key, fn.loc(n['id']),
@@ -389,14 +405,16 @@ def rule_digit(R, fns, cache):
             cands.append((n, c))
         if not cands:
             continue
-        it = cache.get(fn)
+        it = cache.get(fn, R)
+        if it is None:
+            continue
         res = it.res
         for (n, c) in cands:
             if n['id'] not in res.reached:
                 continue
             v = res.obs.get(n['id'])
             hi = DIGIT_BASE[c]
-            key = '%s#%s' % (fn.q, fn.expr(n['id']))
+            key = _k('%s#%s' % (fn.q, fn.expr(n['id'])))
             R.check(v is not None and U.inside(v, (0, hi)), 'D1-digit-validated', key, fn.loc(n['id']),
                     '`%s` in %s can evaluate to %s: the character is converted to a digit value without having been tested to lie in '
                     '%r..%r on every path' % (fn.expr(n['id']), fn.q, _fmt_iv(v), chr(c), chr(c + hi)),
@@ -409,7 +427,9 @@ def rule_index(R, fns, cache):
         cands = [n for n in fn.all_nodes() if n.get('k') == 'call' and n.get('q') == 'std::array::operator[]' and n.get('args')]
         if not cands:
             continue
-        it = cache.get(fn)
+        it = cache.get(fn, R)
+        if it is None:
+            continue
         res = it.res
         for n in cands:
             m = re.search(r',\s*(\d+)\s*>\s*$', n.get('rclsT', ''))
@@ -417,7 +437,7 @@ def rule_index(R, fns, cache):
                 continue
             size = int(m.group(1))
             v = res.obs.get(n['args'][0])
-            key = '%s#%s' % (fn.q, fn.expr(n['id']))
+            key = _k('%s#%s' % (fn.q, fn.expr(n['id'])))
             R.check(v is not None and U.inside(v, (0, size - 1)), 'T1-array-index-in-range', key, fn.loc(n['id']),
                     'subscript of %s in %s can be %s, outside 0..%d' % (n.get('rclsT'), fn.q, _fmt_iv(v), size - 1),
                     'index in %s' % _fmt_iv(v))
@@ -501,7 +521,7 @@ def rule_strto(R, fns):
 
             def run_mode(rule, what, alts, label):
                 it, hit = _walk_after(fn, call, alts)
-                key = '%s#%s:%s' % (fn.q, name, label)
+                key = _k('%s#%s:%s' % (fn.q, name, label))
                 if not hit or it.res.truncated:
                     R.broken('%s: the %s call in %s was not reached by the interpretation' % (rule, name, fn.q))
                     return
@@ -529,9 +549,9 @@ def rule_strto(R, fns):
                     if sense is False and cn is not None and cn.get('k') == 'call' and cn.get('q', '').rsplit('::', 1)[-1] == 'isspace' \
                             and cn.get('args') and _arg_text(fn, cn['args'][0]) == want:
                         ok = True
-                R.check(ok, 'S4-strto-leading-space-rejected', '%s#%s:leading-space' % (fn.q, name), site,
+                R.check(ok, 'S4-strto-leading-space-rejected', _k('%s#%s:leading-space' % (fn.q, name)), site,
                         '%s in %s is not guarded by !isspace(%s): %s skips leading white space, so " 1" would be accepted'
-                        % (name, fn.q, want, name))
+                        % (name, fn.q, want, name), 'the call is dominated by the false edge of isspace(%s)' % want)
 
 
 # ------------------------------------------------------------------------------------------------ L1
@@ -578,32 +598,64 @@ def all_rules(fb, R, fns=None):
     rule_consumed(R, fns)
 
 
+ANCHORS = (COORD_PARSER, 'osmium::io::detail::opl_parse_int', 'osmium::io::detail::opl_parse_escaped',
+           'osmium::detail::append_location_coordinate_to_string', 'osmium::io::detail::OutputBlock::output_int',
+           'osmium::detail::string_to_ulong', 'osmium::string_to_object_id', 'osmium::detail::str_to_int',
+           'osmium::detail::parse_timestamp', 'osmium::Location::set_lon', 'osmium::Location::set_lat')
+
+
 def run(ctx):
     R = ctx.R
-    configs = ['ndebug14'] if ctx.tier == 'quick' else ['ndebug14', 'debug14', 'ndebug17', 'debug17']
-    for cfg in configs:
-        fb = ctx.facts(['io_read', 'io_write'], cfg)
+    # drivers/c13_extra.cpp holds exactly the scope headers plus the instantiations the library uses (small TU: the mutant
+    # self-test re-extracts it for every seeded edit); the thorough tier adds the full reader / writer units as a cross-check
+    # that the same bodies are what the I/O code instantiates.
+    units = [(['c13_extra'], 'ndebug14')]
+    if ctx.tier != 'quick':
+        units += [(['c13_extra'], c) for c in ('debug14', 'ndebug17', 'debug17')] + [(['io_read', 'io_write'], 'ndebug14')]
+    for (drivers, cfg) in units:
+        fb = ctx.facts(drivers, cfg)
         fns = scope_fns(fb)
-        for need in (COORD_PARSER, 'osmium::io::detail::opl_parse_int', 'osmium::io::detail::opl_parse_escaped',
-                     'osmium::detail::append_location_coordinate_to_string', 'osmium::io::detail::OutputBlock::output_int',
-                     'osmium::detail::string_to_ulong', 'osmium::string_to_object_id', 'osmium::detail::str_to_int',
-                     'osmium::detail::parse_timestamp', 'osmium::Location::set_lon', 'osmium::Location::set_lat'):
+        for need in ANCHORS:
             if not any(f.q == need for f in fns):
-                R.broken('anchor %s not found in the fact base (%s)' % (need, cfg))
+                R.broken('anchor %s not found in the fact base (%s %s)' % (need, '+'.join(drivers), cfg))
         all_rules(fb, R, fns)
-    R.expect('A1-accum-bounded', 10)          # coordinate parser 4 (int digits, fraction, exponent digits, scaling), opl_parse_int 2, opl_parse_escaped 4
+    # floors = instances confirmed by reading, *not counting* the three that fire today (KNOWN): a repository fix may
+    # legitimately remove those constructs (e.g. an unsigned formatter without a negation)
+    R.expect('A1-accum-bounded', 9)           # coordinate parser 3 (+1: scaling loop, F6), opl_parse_int 2, opl_parse_escaped 4
     R.expect('S1-strto-range-rejected', 3)    # string_to_object_id, string_to_ulong, str_to_int
     R.expect('S2-strto-trailing-rejected', 3)
     R.expect('S3-strto-no-digits-rejected', 2)       # the two throwing wrappers
     R.expect('S4-strto-leading-space-rejected', 2)
     R.expect('L1-coordinate-fully-consumed', 2)      # set_lon, set_lat (const char*)
-    R.expect('N1-negation-excludes-minimum', 3)      # coordinate formatter, opl_parse_int, output_int
-    R.expect('C1-narrowing-in-range', 7)      # coordinate parser, string_to_ulong, str_to_int x3, opl_parse_int<uint32>, Timestamp(const char*)
+    R.expect('N1-negation-excludes-minimum', 2)      # coordinate formatter, opl_parse_int (+1: output_int, finding)
+    R.expect('C1-narrowing-in-range', 6)      # coordinate parser, string_to_ulong, str_to_int x3, opl_parse_int<uint32> (+1: Timestamp(const char*), finding)
     R.expect('D1-digit-validated', 19)        # parse_timestamp 14, coordinate parser 1 (5 sites, one text), opl_parse_int 1, opl_parse_escaped 3
     R.expect('T1-array-index-in-range', 1)    # mon_lengths[tm.tm_mon]
 
 
+_SELFTEST_MEMO = {}
+
+
 def _selftest(fb, R):
+    """all rules on selftest/positive/c13_text.cpp: every bad_<rule>_* function reported by that rule, every ok_* silent
+    (computed once per run, replayed for each listed rule)"""
+    from ..engine import AnalysisBroken
+    memo_key = tuple(str(u) for u in fb.units)
+    if memo_key in _SELFTEST_MEMO:
+        inst, exc = _SELFTEST_MEMO[memo_key]
+        R.instances.update(inst)
+        if exc is not None:
+            raise AnalysisBroken(exc)
+        return
+    try:
+        _selftest_once(fb, R)
+    except AnalysisBroken as e:
+        _SELFTEST_MEMO[memo_key] = (dict(R.instances), str(e))
+        raise
+    _SELFTEST_MEMO[memo_key] = (dict(R.instances), None)
+
+
+def _selftest_once(fb, R):
     from ..engine import AnalysisBroken
     fns = [f for f in fb.functions if f.q.startswith('c13pos::') and f.has_cfg]
     all_rules(fb, R, fns)
